@@ -401,6 +401,11 @@ def run_machine(module, sub: Sub, ctx: Ctx, n: int, seed: int, known, wall_budge
         pass
     except Exception as e:
         if st["last"] is None:
+            if stats.budget_hit and "Flaky" in type(e).__name__:
+                # the wall budget ran out mid-search: machines created after that skip every step, which Hypothesis
+                # reports as inconsistent data generation.  A budget stop is "inconclusive", never an error or a violation.
+                stats.inconclusive["wall-budget-stop"] += 1
+                return stats, None
             raise
         st["flaky"] = repr(e)[:300]
     return stats, _viol(sub, st)
@@ -563,6 +568,7 @@ def run_property(module, tier: str, seed: int, only: list[str] | None = None) ->
         w = s.workers_thorough if tier == "thorough" else s.workers_quick
         n = s.thorough if tier == "thorough" else s.quick
         wb = s.wall_thorough if tier == "thorough" else s.wall_quick
+        wb = wb * float(os.environ.get("VERIF_WALL_SCALE", "1"))  # experiments only: force the wall-budget path
         kind = "enum" if s.enumerate else ("machine" if s.machine else "given")
         for k in range(w):
             tasks.append((module.__name__, s.name, kind, tier, seed * 1000003 + k, n, k, w, wb))
